@@ -50,6 +50,10 @@ def urem (a b : Nat) : Res Nat := if b = 0 then .panic else .ok (a % b)
 /-- `!x` on a `usize`: bitwise complement of a 64-bit word -/
 def usizeNot (x : Nat) : Nat := USIZE - 1 - x
 
+/-- `usize::min` / `usize::max` (`Ord::min`, `Ord::max`) -/
+abbrev umin (a b : Nat) : Nat := min a b
+abbrev umax (a b : Nat) : Nat := max a b
+
 /-- `usize::saturating_sub` -/
 abbrev saturatingSub (a b : Nat) : Nat := a - b
 
@@ -81,6 +85,9 @@ def okOr {α} (o : Option α) (e : Err) : Res α := match o with | some a => .ok
 
 /-- `Option::map_or_else(default, f)` / `map_or(default, f)` with pure arguments -/
 def mapOr {α β} (o : Option α) (d : β) (f : α → β) : β := match o with | some a => f a | none => d
+
+/-- `Option::map_or(default, f)` with a closure that can panic -/
+def mapOrM {α β} (o : Option α) (d : β) (f : α → Res β) : Res β := match o with | some a => f a | none => .ok d
 
 /-- `Result::is_ok` / `is_err` (on an evaluated `Result` value) -/
 abbrev isOk {α} (r : Res α) : Bool := r.isOk
@@ -130,6 +137,27 @@ abbrev contains {α} [BEq α] (l : List α) (x : α) : Bool := l.contains x
 
 /-- `vec![x; n]` -/
 abbrev vecRepeat {α} (x : α) (n : Nat) : List α := List.replicate n x
+
+/-! ## `Ord`, `sort`, `HashSet` -/
+
+/-- `T: Ord` as `sort` uses it: a total order given by its `<=` test.  Instances: the integers, and tuples compared
+lexicographically (first components first), as `#[derive(Ord)]` / the std impl for tuples do. -/
+class Ord (α : Type) where
+  le : α → α → Bool
+
+instance : Ord Nat := ⟨fun a b => decide (a ≤ b)⟩
+instance : Ord Int := ⟨fun a b => decide (a ≤ b)⟩
+instance {α β} [Ord α] [Ord β] : Ord (α × β) :=
+  ⟨fun p q => (Ord.le p.1 q.1 && !Ord.le q.1 p.1) || (Ord.le p.1 q.1 && Ord.le q.1 p.1 && Ord.le p.2 q.2)⟩
+
+/-- `slice::sort` (stable; "the sort is stable, i.e. does not reorder equal elements"): core's stable merge sort -/
+def sort {α} [Ord α] (l : List α) : List α := l.mergeSort Ord.le
+
+/-- `iter.collect::<HashSet<T>>()` as far as the translated code observes it (its `len`): the distinct elements.
+Each element is kept once (its last occurrence); `Eq`/`Hash` are taken to be lawful (`==` decides equality). -/
+def toHashSet {α} [BEq α] : List α → List α
+  | [] => []
+  | x :: xs => if xs.contains x then toHashSet xs else x :: toHashSet xs
 
 /-! ## iterator adaptors (finite iterators are lists) -/
 
